@@ -1,5 +1,6 @@
 import ServiceModel.Properties.C08
 import ServiceModel.Proofs.Once
+import ServiceModel.Proofs.OnceRestart
 /-!
 # C02 — Each paid request is settled exactly once, to the right party
 -/
@@ -145,5 +146,27 @@ theorem settled_request_never_answered_again (hc : CfgOK cfg p) {s s' : State} (
     (hl : Leads (step s op).1 s') (pv : Addr) (code : Nat) (out : OutKind) :
     (respond s' r pv code out).2.1 ≠ .ok :=
   fun h => settled_request_never_pending_again hc hr op hw r hact hgone hl (accepted_response_was_pending s' r pv code out h)
+
+/-! ### the same over chains that go through zero-height restarts -/
+/-- Exactly once, restarts included: on a chain that has gone through any number of restarts, a request that stopped
+    being pending in some step is never pending again, whatever well-formed operations **and further restarts**
+    follow (`LeadsR`) — a context comes back from a restart with the batch counter it had, nothing is pending on the
+    restarted chain, and used context ids stay used (E7; the ghost set `usedIds` is carried over by `restart`). -/
+theorem settled_request_never_pending_again_across_restarts (hc : CfgOK cfg p) {s s' : State}
+    (hr : ReachableR cfg p h0 t0 s) (op : Op) (hw : WF s op) (r : ReqId) (hact : r ∈ s.activeI)
+    (hgone : r ∉ (step s op).1.activeI) (hl : LeadsR (step s op).1 s') : r ∉ s'.activeI :=
+  (spent_leadsR hc (ReachableR.step op hr hw) hl r
+    (spent_of_deactivated (reachableR_invAll hc hr).inv op hw r hact hgone)).1
+
+/-- A request that is pending when the chain is restarted — the zero-height preparation returns its fee to the
+    consumer (`C19.prep_refunds_every_pending_fee`) — is never pending on the restarted chain, now or later, and no
+    response to it is ever accepted there: the refund is its one settlement. -/
+theorem request_pending_at_restart_is_settled_for_good (hc : CfgOK cfg p) {s s1 s' : State}
+    (hr : ReachableR cfg p h0 t0 s) {height time : Int} (hre : restart s height time = some s1) (r : ReqId)
+    (hact : r ∈ s.activeI) (hl : LeadsR s1 s') (pv : Addr) (code : Nat) (out : OutKind) :
+    r ∉ s'.activeI ∧ (respond s' r pv code out).2.1 ≠ .ok := by
+  have hsp := spent_leadsR hc (ReachableR.restart height time hr hre) hl r
+    (spent_of_pending_at_restart (reachableR_invAll hc hr) hre r hact)
+  exact ⟨hsp.1, fun h => hsp.1 (accepted_response_was_pending s' r pv code out h)⟩
 
 end SM.C02
